@@ -762,7 +762,9 @@ Definition resolve_one (e : env) (tables bare : list tname) (aliases : list (str
                        let named_ty := find_first (fun a => String.eqb (fa_name a) arg_name) (rev fa) in
                        let pn_ty : result (string * qname) :=
                          if String.eqb arg_name "" then
-                           match nth_error fa i with
+                           (* since fix 151ed9c: the arguments of a variadic call beyond the declared list
+                              belong to the last declared argument *)
+                           match nth_error fa (Nat.min i (List.length fa - 1)) with
                            | Some a => Ok (fa_name a, fa_type a)
                            | None => Panic "index out of range: fun.Args[i]"
                            end
